@@ -232,4 +232,17 @@ impl BrokerHandle {
             .map_err(|_| BrokerShutdown)?;
         recv.await.map_err(|_| BrokerShutdown)
     }
+
+    /// Requests a read-only snapshot of the broker's internal map sizes and cross-references.
+    ///
+    /// Verification hook; changes no behavior.
+    #[cfg(feature = "verif-hooks")]
+    pub async fn verif_snapshot(&mut self) -> Result<crate::VerifSnapshot, BrokerShutdown> {
+        let (send, recv) = futures_channel::oneshot::channel();
+        self.send
+            .send(ConnectionEvent::VerifSnapshot(send))
+            .await
+            .map_err(|_| BrokerShutdown)?;
+        recv.await.map_err(|_| BrokerShutdown)
+    }
 }
